@@ -85,6 +85,16 @@ func init() {
 					st.Ghost["fsops"] = ghostInc(g)
 				}
 			}
+			// $trunc (if declared): the last open for writing truncates an existing file
+			// (os.Create always; os.OpenFile iff O_TRUNC, 0x200 on linux, is in the flags)
+			if _, ok := st.Ghost["trunc"]; ok {
+				switch name {
+				case "os.Create":
+					st.Ghost["trunc"] = True()
+				case "os.OpenFile":
+					st.Ghost["trunc"] = Neq(BVAnd(sTerm(args[1]), BVInt(0x200, 64)), BVInt(0, 64))
+				}
+			}
 			return TupleV{f, e}
 		}
 	}
@@ -92,7 +102,7 @@ func init() {
 	reg("os.Open", "may fail with any error; err==nil <=> file != nil", resultPtrErr("os.Open"))
 	reg("os.Create", "may fail with any error; err==nil <=> file != nil", resultPtrErr("os.Create"))
 	for _, k := range []string{"os.OpenFile", "os.Open", "os.Create"} {
-		libEffTable[k] = func(e *effects) { e.ghost["minsize"] = true; e.ghost["fsops"] = true }
+		libEffTable[k] = func(e *effects) { e.ghost["minsize"] = true; e.ghost["fsops"] = true; e.ghost["trunc"] = true }
 	}
 
 	reg("(*os.File).Stat", "may fail; err==nil => info != nil, 0 <= info.Size() < 4 GiB (scoping), and info.Size() >= every size observed before on this descriptor (files are not truncated by others)", func(fr *Frame, in ssa.Instruction, st *State, args []Value, rt types.Type) Value {
